@@ -188,6 +188,10 @@ fn base_plan(prop: &str, tier: &str, run_seed: u64) -> Plan {
     let mut opts = ExecOpts::default();
     if prop == "C06" {
         opts.lookup_cost = true;
+        opts.midrun_every = Some(1 + (run_seed % 3) as u32);
+    }
+    if prop == "C10" {
+        opts.post_growth = true;
     }
     if prop == "C15" {
         opts.log_reads = true;
@@ -443,6 +447,7 @@ pub fn judge(prop: &str, p: &Program, r: &RunResult, opts: &ExecOpts, js: &mut J
             let mut max_seen = 0u64;
             out.extend(oracle::lookup_cost(p, r, &mut checked, &mut max_seen));
             js.bump("tree_lookups_cost_checked", checked as u64);
+            js.bump("midrun_tree_validations", r.midrun_checks);
             js.max("max_comparisons_in_a_tree_lookup", max_seen);
             if let Some(rep) = &r.quiescent.inspect {
                 js.bump("tree_bins_validated", rep.tree_sizes.len() as u64);
@@ -472,6 +477,18 @@ pub fn judge(prop: &str, p: &Program, r: &RunResult, opts: &ExecOpts, js: &mut J
             js.bump("resize_generations", rs.generations as u64);
             js.bump("generations_with_2_or_more_helpers", rs.multi_helper_generations as u64);
             js.max("max_helpers_in_one_resize", rs.max_helpers as u64);
+            if let Some((l0, l1, n, sc)) = r.quiescent.post_growth {
+                js.bump("post_run_growth_probes", 1);
+                if l1 == l0 {
+                    out.push(Violation { class: "later-growth-broken".into(), detail: format!("after the run the table of {} bins did not grow although {} further entries were inserted", l0, n) });
+                } else if l0 > 0 && !(l1 % l0 == 0 && (l1 / l0).is_power_of_two()) {
+                    // several generations may run back to back (an overfull bin in a table shorter
+                    // than 64 asks for 8x), each of them doubling
+                    out.push(Violation { class: "later-growth-broken".into(), detail: format!("after the run the table grew from {} to {} bins (not a chain of doublings)", l0, l1) });
+                } else if sc != (l1 as isize) - ((l1 as isize) >> 2) {
+                    out.push(Violation { class: "wrong-threshold".into(), detail: format!("after growing to {} bins the next threshold is {} (expected three quarters = {})", l1, sc, (l1 as isize) - ((l1 as isize) >> 2)) });
+                }
+            }
             // no leftover resize state (subset of C05 that C10 states itself)
             if let Some(rep) = &r.quiescent.inspect {
                 for e in &rep.wellformed_errors {
